@@ -7,7 +7,9 @@ RULE = ("K: every transform/option combination (Horizontal/Vertical/Point/Diagon
         "{True, False}; mirror_axis in {x, y}; diagonal_plane in {xy, xz, yz}) on random binary64 arrays; 2-D transforms with "
         "the singleton axis in EVERY position (square and non-square where allowed, also shapes with two or three singleton "
         "axes for the non-transposing ones), 3-D transforms on boxes with all sides 1..5 (the transposed pair square); "
-        "__call__ on the initialised and on the bare transform, one or two keys; output compared BIT-EXACTLY with the model "
+        "__call__ on the initialised and on the bare transform, one or two keys, AND multi-entry dicts (2-3 entries) whose arrays "
+        "differ in shape and singleton-axis position within one call (every entry: shape kept, bit-exact vs the model applied "
+        "per entry, equal to the single-array call, reflection oracle); output compared BIT-EXACTLY with the model "
         "(both sides compute (v + v[sigma]) / 2 in binary64 in the same order). Error stream: unknown mirror_axis / "
         "diagonal_plane, 2-D transform without singleton axis, transposition of a non-square pair (neither side 1), "
         "init_module's 2-D shape check. Property oracle (numpy reflections written independently of the implementation and "
@@ -89,6 +91,51 @@ def impl(name, opt, mm, v, init=False, keys=("p",), dtype="float64"):
         if not np.array_equal(a, arrs[0], equal_nan=True):
             raise AssertionError("keys disagree")
     return arrs[0]
+
+
+def impl_dict(name, opt, mm, arrays, init=False, dtype="float64"):
+    """ONE __call__ on a dict whose entries may have different shapes / singleton-axis positions;
+    returns {key: numpy array} (shapes as returned, unchecked) or 'error' / 'error-init'"""
+    j = J()
+    jnp = j["jnp"]
+    t = build(name, opt, mm)
+    if init:
+        try:
+            first = next(iter(arrays.values()))
+            t = t.init_module(config=j["cfg"], materials=j["mats"], matrix_voxel_grid_shape=tuple(first.shape),
+                              single_voxel_size=(1e-6, 1e-6, 1e-6), output_shape={k: tuple(a.shape) for k, a in arrays.items()})
+        except Exception:
+            return "error-init"
+    dt = jnp.float64 if dtype == "float64" else jnp.float32
+    try:
+        out = t({k: jnp.asarray(a, dtype=dt) for k, a in arrays.items()})
+    except Exception:
+        return "error"
+    if list(out.keys()) != list(arrays.keys()):
+        return "error"
+    return {k: np.asarray(out[k]) for k in arrays}
+
+
+def prop_dict(name, opt, mm, arrays, out=None):
+    """the property for a multi-entry call: every entry keeps its shape, satisfies the single-array property and
+    equals what the transform returns for that entry alone"""
+    arrays = {k: np.asarray(a, dtype=np.float64) for k, a in arrays.items()}
+    if out is None:
+        out = impl_dict(name, opt, mm, arrays)
+    tag = f"{name}(opt={opt}, min_min_to_max_max={mm}) dict shapes={[a.shape for a in arrays.values()]}"
+    if isinstance(out, str):
+        return f"multi-entry call raised: {tag}"
+    for k, v in arrays.items():
+        y = out[k]
+        if y.shape != v.shape:
+            return f"entry '{k}' changed shape {v.shape} -> {y.shape} in a multi-entry call: {tag}"
+        d = prop(name, opt, mm, v, y)
+        if d:
+            return f"entry '{k}': {d} (multi-entry call: {tag})"
+        alone = impl(name, opt, mm, v)
+        if isinstance(alone, str) or not np.array_equal(alone, y):
+            return f"entry '{k}' differs from the single-array call: {tag}"
+    return None
 
 
 # ------------------------------------------------------------------------ property oracle (numpy)
@@ -179,6 +226,29 @@ def shapes_for(rng, name, opt, quick=True):
     return [(n, m, k), (m, k, n), (n, n, n), (1, n, m), (n, 1, 1), (1, 1, 1)]
 
 
+def mixed_shapes(rng, name, opt):
+    """2-3 valid shapes for ONE call that differ in size and (2-D classes) in the position of the singleton axis"""
+    a, b, c = rng.randint(2, 4), rng.randint(5, 6), rng.randint(2, 6)
+    if name in KINDS2D:
+        dims = [(a, a), (b, b), (c, c)] if name == "diagonal2d" else [(a, b), (b, c), (c, a + 1)]
+        out = []
+        for pos, d in zip(rng.shuffle([0, 1, 2]), dims):
+            s = list(d)
+            s.insert(pos, 1)
+            out.append(tuple(s))
+    elif name == "diagonal3d":
+        p, q = {"xy": (0, 1), "xz": (0, 2), "yz": (1, 2)}[opt]
+        out = []
+        for side, other in ((a, b), (b, 1), (c, a)):
+            s = [other] * 3
+            s[p] = s[q] = side
+            out.append(tuple(s))
+    else:
+        out = [(a, b, c), (b, 1, a), (1, c, b)]
+    out = rng.shuffle(out)
+    return out[:rng.randint(2, 3)]
+
+
 def rand_array(rng, shape, special=False):
     n = int(np.prod(shape))
     if special:          # integers: every average is exact, so even the mean is exact
@@ -238,6 +308,33 @@ def run(ctx):
                         if d:
                             ctx.violation({**case, "dtype": "float32"}, d)
                 ci += 1
+    # multi-entry dicts mixing shapes and singleton-axis positions in ONE call: every entry must come back with its
+    # own shape, equal to the model applied per entry, and pass the reflection oracle
+    for (name, opt, mm) in configs():
+        for rep_i in range(ctx.scale(2, 8)):
+            shapes = mixed_shapes(rng, name, opt)
+            arrays = {k: rand_array(rng, sh, special=(rep_i % 2 == 1)) for k, sh in zip(("a", "b", "c"), shapes)}
+            init = rep_i % 2 == 0
+            out = impl_dict(name, opt, mm, arrays, init=init)
+            case = {"name": name, "opt": opt, "mm": mm, "dict": {k: a.tolist() for k, a in arrays.items()}}
+            ctx.case(sample={**case, "impl_shapes": None if isinstance(out, str) else [list(o.shape) for o in out.values()]}
+                     if (name, rep_i) == ("diagonal2d", 0) else None,
+                     nontrivial=("dict", name, opt, mm, tuple(shapes)), op="mixed-dict", transform=name, entries=len(shapes),
+                     singleton_positions="/".join(str(list(sh).index(1)) if 1 in sh else "-" for sh in shapes), initialised=init)
+            for k, v in arrays.items():
+                def cb(rep, case=case, k=k, v=v, out=out):
+                    if isinstance(out, str):
+                        ctx.expect_equal("mixed-dict", case, out, rep)
+                    elif out[k].shape != v.shape:
+                        ctx.mismatch("mixed-dict", case, {"entry": k, "impl_shape": list(out[k].shape), "expected_shape": list(v.shape)})
+                    else:
+                        ctx.expect_equal("mixed-dict", case, " ".join(f2h(x) for x in out[k].astype(np.float64).ravel()), rep)
+                lines.append(model_line(name, opt, mm, v))
+                cbs.append(cb)
+            ctx.impl_property_evals += 1
+            d = prop_dict(name, opt, mm, arrays, out)
+            if d:
+                ctx.violation(case, d)
     # error stream
     n = rng.randint(2, 4)
     errs = [("horizontal3d", "z", True, (n, n, n)), ("horizontal3d", "", True, (n, n, n)),
@@ -266,6 +363,8 @@ def run(ctx):
 
 # ------------------------------------------------------------------------------------------- S
 def _eval(inp):
+    if "dict" in inp:
+        return prop_dict(inp["name"], inp["opt"], inp["mm"], {k: np.asarray(a, dtype=np.float64) for k, a in inp["dict"].items()})
     return prop(inp["name"], inp["opt"], inp["mm"], np.asarray(inp["v"], dtype=np.float64), dtype=inp.get("dtype", "float64"))
 
 
@@ -282,6 +381,13 @@ def valid_shape(name, opt, shape):
 
 
 def search(ctx, hints):
+    for h in hints:
+        if isinstance(h, dict) and "dict" in h:
+            ctx.impl_property_evals += 1
+            d = _eval(h)
+            if d:
+                ctx.violation(h, d)
+                return
     for h in hints:
         if isinstance(h, dict) and "v" in h and h.get("opt") in ("-", "x", "y", "xy", "xz", "yz"):
             v = np.asarray(h["v"])
@@ -306,6 +412,20 @@ def search(ctx, hints):
                 if d:
                     ctx.violation(inp, d)
                     return
+
+
+    # multi-entry calls mixing layouts, smallest shapes first
+    rng = ctx.rng.fork()
+    for (name, opt, mm) in configs():
+        for _ in range(4):
+            shapes = mixed_shapes(rng, name, opt)
+            arrays = {k: (np.arange(int(np.prod(sh)), dtype=np.float64) ** 2 + 1).reshape(sh) for k, sh in zip(("a", "b", "c"), shapes)}
+            inp = {"name": name, "opt": opt, "mm": mm, "dict": {k: a.tolist() for k, a in arrays.items()}}
+            ctx.impl_property_evals += 1
+            d = _eval(inp)
+            if d:
+                ctx.violation(inp, d)
+                return
 
 
 def replay(ctx, inp):
